@@ -220,6 +220,7 @@ type Subscription struct {
 	ch         chan *Msg
 	done       chan struct{}
 	delivered  uint64
+	stalled    bool // the consumer is stalled (fault injection): nothing is dispatched to it, its inbox grows
 	busyBytes  int // size of the message the callback is handling (it counts as pending until the callback returns)
 	limMsgs    int // pending limits as in nats.go (0: the library defaults, 524288 messages / 64 MiB)
 	limBytes   int
@@ -783,6 +784,12 @@ func (s *Subscription) IsValid() bool {
 	return !s.closed
 }
 
+// Defaults of nats.go for the pending limits of a subscription.
+const (
+	DefaultSubPendingMsgsLimit  = 512 * 1024
+	DefaultSubPendingBytesLimit = 64 * 1024 * 1024
+)
+
 // SetPendingLimits sets the limits for queued messages and bytes of this subscription (negative: unlimited), as in
 // nats.go: a message that would exceed them is dropped (slow consumer).
 func (s *Subscription) SetPendingLimits(msgLimit, bytesLimit int) error {
@@ -885,7 +892,7 @@ func (w *World) Enabled() []Event {
 	var evs []Event
 	for _, c := range w.conns {
 		for _, s := range c.subs {
-			if !s.closed && !s.busy && len(s.inbox) > 0 {
+			if !s.closed && !s.busy && !s.stalled && len(s.inbox) > 0 {
 				evs = append(evs, Event{Kind: EvDispatch, Conn: c, Sub: s, Seq: s.inbox[0].Seq,
 					key: fmt.Sprintf("dispatch %s#%d %s", c.Name, s.idx, s.inbox[0].Subject)})
 			}
@@ -1015,10 +1022,10 @@ func (w *World) routeLocked(c *Conn) {
 			// slow consumer: nats.go drops a message that would take the subscription over its pending limits
 			lm, lb := s.limMsgs, s.limBytes
 			if lm == 0 {
-				lm = 524288
+				lm = DefaultSubPendingMsgsLimit
 			}
 			if lb == 0 {
-				lb = 64 * 1024 * 1024
+				lb = DefaultSubPendingBytesLimit
 			}
 			pb, pn := len(m.Data), len(s.inbox)+1
 			for _, q := range s.inbox {
@@ -1205,6 +1212,19 @@ func (w *World) Connected(c *Conn) bool {
 	w.mu.Lock()
 	defer w.mu.Unlock()
 	return c.state == stConnected
+}
+
+// StallSubs stalls (or releases) the subscriptions of a connection on the given subject: a stalled consumer is handed
+// nothing, the messages routed to it queue up (fault injection: a slow or stalled node).
+func (w *World) StallSubs(c *Conn, subject string, on bool) {
+	w.mu.Lock()
+	for _, s := range c.subs {
+		if s.Subject == subject {
+			s.stalled = on
+		}
+	}
+	w.mu.Unlock()
+	w.wake()
 }
 
 // Idle reports whether no operation is queued anywhere and no callback runs.
